@@ -141,5 +141,8 @@ def export(root="/repo", expect=("scrut-lib.json", "scrut-bin.json"), force=Fals
 
 if __name__ == "__main__":
     root = sys.argv[1] if len(sys.argv) > 1 else "/repo"
-    d, info = export(root, force="--force" in sys.argv)
+    if "--positive" in sys.argv:
+        d, info = export(root, expect=("verif_positive-lib.json",), cargo_args=("--lib",))
+    else:
+        d, info = export(root, force="--force" in sys.argv)
     print(d, info)
